@@ -426,8 +426,27 @@ func c01Check(c *mc.Ctx, k c01Case, doMem, doStreamW, doStreamR bool) {
 					return
 				}
 			}
-			// buffer reader
+			// buffer reader (a second pass with the span-cache allocator switched on when strings/binaries are involved)
 			in := append(append([]byte{}, want...), c01Trail...)
+			hasStr := false
+			for _, v := range vals {
+				hasStr = hasStr || v.K == "string" || v.K == "binary"
+			}
+			if hasStr {
+				thrift.SetSpanCache(true)
+				off = 0
+				for i, v := range vals {
+					got, l, err := cvRead(v.K, in[off:])
+					off += l
+					if err != nil || !cvEq(got, stripLen(v)) || off != ends[i] {
+						thrift.SetSpanCache(false)
+						bad("read-span-cache:"+v.K, "with the span cache on, the Binary reader returned (%v, %d, %v) for value #%d %v", got, l, err, i, v)
+						failed = true
+						return
+					}
+				}
+				thrift.SetSpanCache(false)
+			}
 			off = 0
 			for i, v := range vals {
 				got, l, err := cvRead(v.K, in[off:])
